@@ -68,6 +68,8 @@ def pick(rng, items, n):
 # ====================================================================== C10
 
 def c10(run):
+    import framework as _fw
+    _fw.environment_projection(run)
     rng = random.Random(run.seed)
     quick = run.tier == "quick"
     menu = cf.load_menu("menus10.json")
@@ -388,6 +390,8 @@ def integrity_problems(u, snap, supplied_docs):
 
 
 def c09(run):
+    import framework as _fw
+    _fw.environment_projection(run)
     rng = random.Random(run.seed)
     quick = run.tier == "quick"
     cases = []
